@@ -66,6 +66,12 @@ class Comment(TypedExpression):
                     inner = "\n".join(trimmed)
                 else:
                     inner = "\n".join(normalized)
+                # Delimiter padding is re-added on rebuild: keeping it here would
+                # make the comment grow by one space on every round trip.
+                if not inner.startswith("\n"):
+                    inner = inner.lstrip(" ")
+                if not inner.endswith("\n") and inner.rsplit("\n", 1)[-1].strip():
+                    inner = inner.rstrip(" ")
                 return MultilineComment(text=inner, doc=doc, inner_indent=inner_indent)
             inner = inner.strip()
             return MultilineComment(text=inner, doc=doc)
@@ -101,7 +107,7 @@ class MultilineComment(Comment):
             if self.text.startswith("\n"):
                 result = " " * indent + opening
             else:
-                result = f"{opening} "
+                result = ("" if self.inline else " " * indent) + f"{opening} "
             lines = self.text.split("\n")
             result += lines[0]
             extra_indent = 2 if self.inner_indent is None else self.inner_indent
